@@ -94,7 +94,7 @@ def run(tier, seed, replay=None):
         try:
             cfg = open(os.path.join(SPEC_DIR, "TapTable.cfg")).read()
             if tier == "thorough":
-                cfg = cfg.replace("Positions = {1, 3}", "Positions = {0, 1, 2, 3}")
+                cfg = cfg.replace("Positions = {1, 2, 3}", "Positions = {0, 1, 2, 3, 4}")
             open(os.path.join(wd, "TapTable.cfg"), "w").write(cfg)
             r = run_tlc("TapTable", "TapTable.cfg", workdir=wd, dump=True)
         finally:
